@@ -17,7 +17,7 @@ use temporal_rs::{Calendar, Instant, PlainDateTime, TimeZone, ZonedDateTime};
 
 const TIME_UNITS: [Unit; 6] = [Unit::Hour, Unit::Minute, Unit::Second, Unit::Millisecond, Unit::Microsecond, Unit::Nanosecond];
 
-fn unit_max(u: Unit) -> u32 {
+pub fn unit_max(u: Unit) -> u32 {
     match u {
         Unit::Hour => 24,
         Unit::Minute | Unit::Second => 60,
@@ -25,7 +25,7 @@ fn unit_max(u: Unit) -> u32 {
     }
 }
 
-fn divisors_below(m: u32) -> Vec<u32> {
+pub fn divisors_below(m: u32) -> Vec<u32> {
     (1..m).filter(|d| m % d == 0).collect()
 }
 
@@ -39,7 +39,7 @@ fn shape(unit: &str, s: i128, pos: Pos, x: i128) -> String {
 }
 
 /// Offsets within one step S that hit every position class.
-fn offsets(s: i128, rng: &mut Rng) -> Vec<i128> {
+pub fn offsets(s: i128, rng: &mut Rng) -> Vec<i128> {
     let mut v = vec![0, 1, s / 2 - 1, s / 2, (s + 1) / 2, s / 2 + 1, s - 1, rng.range128(0, s - 1)];
     v.retain(|o| (0..s).contains(o));
     v.dedup();
@@ -147,11 +147,6 @@ fn hook_sweep(rep: &mut Report) {
 // ---------------------------------------------------------------------------------------
 // (b) public entry points
 
-struct Tally {
-    evals: u64,
-    ties: u64,
-}
-
 fn note(rep: &mut Report, t: &mut Tally, op: &str, pos: Pos, key: u64) {
     t.evals += 1;
     if pos == Pos::Tie {
@@ -240,7 +235,7 @@ fn even_origin_alternative(u: Unit, inc: u32, m: Mode, pos: Pos, tod: i128, s: i
     Some(if r == lo { lo + s } else { lo })
 }
 
-const DT_LIMIT: i128 = MAX_INSTANT + NS_PER_DAY; // exclusive on both sides
+pub const DT_LIMIT: i128 = MAX_INSTANT + NS_PER_DAY; // exclusive on both sides
 
 fn datetime_round(rep: &mut Report, t: &mut Tally) {
     let mut rng = rep.cfg.rng("dt_round");
@@ -289,6 +284,16 @@ fn datetime_round(rep: &mut Report, t: &mut Tally) {
 }
 
 fn one_dt_round(rep: &mut Report, t: &mut Tally, u: Unit, inc: u32, m: Mode, local: i128) {
+    dt_round_case(rep, t, "C07.nearest", u, inc, m, local)
+}
+
+pub struct Tally {
+    pub evals: u64,
+    pub ties: u64,
+}
+
+/// One PlainDateTime::round case against the exact oracle (shared with C05).
+pub fn dt_round_case(rep: &mut Report, t: &mut Tally, clause: &str, u: Unit, inc: u32, m: Mode, local: i128) {
     if local <= -DT_LIMIT || local >= DT_LIMIT {
         return;
     }
@@ -313,10 +318,12 @@ fn one_dt_round(rep: &mut Report, t: &mut Tally, u: Unit, inc: u32, m: Mode, loc
     }
     match (&res, exp_ok) {
         (Out::Ok(g), true) if pdt_local_ns(g) == exp || Some(pdt_local_ns(g)) == alt => {}
+        (Out::Ok(g), false) if Some(pdt_local_ns(g)) == alt && alt.map(|a| a > -DT_LIMIT && a < DT_LIMIT) == Some(true) => {}
+        (Out::Err(temporal_rs::error::ErrorKind::Range, _), true) if alt.map(|a| a <= -DT_LIMIT || a >= DT_LIMIT) == Some(true) => {}
         (Out::Err(temporal_rs::error::ErrorKind::Range, _), false) => {}
-        (Out::Panic(..), _) | (Out::Err(temporal_rs::error::ErrorKind::Assert, _), _) => rep.inconclusive("C07.nearest", "panic"),
+        (Out::Panic(..), _) | (Out::Err(temporal_rs::error::ErrorKind::Assert, _), _) => rep.inconclusive(clause, "panic"),
         _ => rep.violation(
-            "C07.nearest",
+            clause,
             "PlainDateTime::round",
             &format!("{}{}", shape(unit_name(u), s, pos, local), if exp_ok { "" } else { "/leaves-range" }),
             case(),
